@@ -258,7 +258,7 @@ type SCase struct {
 	Ops     []SOp    `json:"ops"`
 }
 
-var fieldTypes = []string{"int", "float64", "string", "bool", "byte", "[]int", "int", "int"}
+var fieldTypes = []string{"int", "float64", "string", "bool", "byte", "[]int", "int", "int", "[]float64"}
 
 func genSCase(rt *rapid.T) *SCase {
 	c := &SCase{InFunc: rapid.Bool().Draw(rt, "inFunc"), UseAliasType: rx.Chance(rt, "aliasType", 1, 3)}
@@ -300,7 +300,7 @@ func genSCase(rt *rapid.T) *SCase {
 			op.Field = rx.Uniform(rt, nf, "field")
 		}
 		op.Val = i + 1
-		kinds := []string{"write", "write", "write", "read", "addeq", "inc", "call_set", "call_get", "methodvalue", "alias", "dump", "copyadd", "copyadd"}
+		kinds := []string{"write", "write", "write", "read", "addeq", "inc", "call_set", "call_get", "methodvalue", "alias", "dump", "copyadd", "copyadd", "nilreset"}
 		op.Op = rx.Pick(rt, "sop", kinds...)
 		if nf == 0 && op.Op != "alias" && op.Op != "dump" {
 			op.Op = "dump"
@@ -331,6 +331,8 @@ func valLit(t string, v int) string {
 		return fmt.Sprint(v % 256)
 	case "[]int":
 		return fmt.Sprintf("[]int{%d, %d}", v, v+1)
+	case "[]float64":
+		return fmt.Sprintf("[]float64{%d, %d}", v, v+1)
 	}
 	panic(t)
 }
@@ -346,7 +348,7 @@ func valShow(t string, v int, set bool) string {
 			return ""
 		case "bool":
 			return "false"
-		case "[]int":
+		case "[]int", "[]float64":
 			return "[]"
 		}
 	}
@@ -361,7 +363,7 @@ func valShow(t string, v int, set bool) string {
 		return fmt.Sprint(v%2 == 1)
 	case "byte":
 		return fmt.Sprint(v % 256)
-	case "[]int":
+	case "[]int", "[]float64":
 		return fmt.Sprintf("[%d %d]", v, v+1)
 	}
 	panic(t)
@@ -436,6 +438,11 @@ func (c *SCase) build() (string, string) {
 	for i := 0; i < c.Methods; i++ {
 		fmt.Fprintf(&sb, "func (t *T) M%d() int { return %d }\n", i, i)
 	}
+	if len(c.Fields) > 0 {
+		// another struct type with a method of the same name: one call site (in viaGetter) receives both
+		t0 := c.Fields[0].Type
+		fmt.Fprintf(&sb, "type W struct { K int }\nfunc (w *W) Get0() %s { var z %s; return z }\ntype getter0 interface { Get0() %s }\nfunc viaGetter(g getter0) %s { return g.Get0() }\n", t0, t0, t0, t0)
+	}
 	ind := ""
 	if c.InFunc {
 		sb.WriteString("func run() {\n")
@@ -450,6 +457,9 @@ func (c *SCase) build() (string, string) {
 	}
 	names = append(names, "al")
 	stmt("al := x0")
+	if len(c.Fields) > 0 {
+		stmt("wv := &W{K: 1}")
+	}
 	// model: instance storage; variable -> storage
 	store := make([][]fstate, c.NInst)
 	for i := range store {
@@ -514,11 +524,36 @@ func (c *SCase) build() (string, string) {
 			// the source is printed too: it must be unchanged
 			stmt("fmt.Println(\"src\", %d, %s.%s)", n, src, c.Fields[fi].Name)
 			out("src %d %s", n, c.show(fi, store[ref[op.Inst2]][fi]))
+		case "nilreset":
+			// a slice field is set to nil and appended to: it is still a slice of its declared element type
+			switch c.Fields[fi].Type {
+			case "[]int", "[]float64":
+				stmt("%s.%s = nil", v, c.Fields[fi].Name)
+				stmt("fmt.Println(\"nil\", %d, len(%s.%s), %s.%s == nil)", n, v, c.Fields[fi].Name, v, c.Fields[fi].Name)
+				out("nil %d 0 true", n)
+				stmt("%s.%s = append(%s.%s, 1, 2)", v, c.Fields[fi].Name, v, c.Fields[fi].Name)
+				stmt("fmt.Println(\"half\", %d, %s.%s[0]/2)", n, v, c.Fields[fi].Name)
+				if c.Fields[fi].Type == "[]float64" {
+					out("half %d 0.5", n)
+				} else {
+					out("half %d 0", n)
+				}
+				st[fi] = fstate{set: true, v: 1}
+			default:
+				stmt("%s.%s = %s", v, c.Fields[fi].Name, valLit(c.Fields[fi].Type, op.Val))
+				st[fi] = fstate{set: true, v: op.Val}
+			}
 		case "call_set":
 			stmt("%s.Set%d(%s)", v, fi, valLit(c.Fields[fi].Type, op.Val))
 			st[fi] = fstate{set: true, v: op.Val}
 		case "call_get":
-			stmt("fmt.Println(\"get\", %d, %s.Get%d())", n, v, fi)
+			if fi == 0 {
+				stmt("fmt.Println(\"w\", %d, viaGetter(wv))", n)
+				out("w %d %s", n, valShow(c.Fields[0].Type, 0, false))
+				stmt("fmt.Println(\"get\", %d, viaGetter(%s))", n, v)
+			} else {
+				stmt("fmt.Println(\"get\", %d, %s.Get%d())", n, v, fi)
+			}
 			out("get %d %s", n, c.show(fi, st[fi]))
 		case "methodvalue":
 			stmt("g%d := %s.Get%d", n, v, fi)
@@ -573,7 +608,7 @@ func (c *SCase) build() (string, string) {
 	return sb.String(), wb.String()
 }
 
-var goatFieldType = map[string]goatlang.Type{"int": goatlang.TypeInt32, "float64": goatlang.TypeFloat64, "string": goatlang.TypeString, "bool": goatlang.TypeBool, "byte": goatlang.TypeUint8, "[]int": goatlang.TypeSlice}
+var goatFieldType = map[string]goatlang.Type{"int": goatlang.TypeInt32, "float64": goatlang.TypeFloat64, "string": goatlang.TypeString, "bool": goatlang.TypeBool, "byte": goatlang.TypeUint8, "[]int": goatlang.TypeSlice, "[]float64": goatlang.TypeSlice}
 
 func checkS(c *SCase) *ev.Failure {
 	src, want := c.build()
